@@ -44,6 +44,14 @@ pub fn api_string(cx: &mut Cx) -> String {
 }
 
 pub fn api_float(cx: &mut Cx) -> f64 {
+    if cx.tape.chance(1, 4) {
+        // an arbitrary finite double with all its significant digits
+        let v = f64::from_bits(cx.tape.draw_u64());
+        if v.is_finite() {
+            return v;
+        }
+        return (cx.tape.draw(1_000_000_000) as f64) / 997.0;
+    }
     *cx.tape.pick(&[0.0, 1.0, -1.0, 0.1, 100.0, 1e-7, -2.5e-5, 1e15, 123456.789, 1.5e300, f64::MIN_POSITIVE, 255.0, 65535.0, -0.0, 1e10, 1e-4, 0.0001, 9999999999.0, 3.4028234663852886e38])
 }
 
